@@ -21,7 +21,7 @@ for name in sys.argv[2:]:
     vp = os.path.join(seed, "verify.json")
     ver = json.load(open(vp)) if os.path.exists(vp) else {}
     head = ver.get("repo_head") or subprocess.check_output(["git", "-C", "/repo", "log", "--format=%h", "-1"], text=True).strip()
-    sh("git checkout -q -- . ; git clean -fdq; git checkout -q --detach %s" % head)
+    sh("git reset -q --hard; git clean -fdq; git checkout -q --detach %s" % head)
     rc, out = sh("git apply %s/patch.diff" % seed)
     how = "git apply"
     if rc != 0:
@@ -29,7 +29,7 @@ for name in sys.argv[2:]:
         how = "git apply --3way"
     if rc != 0:  # the stored patch may have been rebased after a later fix: try the current head
         head = subprocess.check_output(["git", "-C", "/repo", "log", "--format=%h", "-1"], text=True).strip()
-        sh("git checkout -q -- . ; git clean -fdq; git checkout -q --detach %s" % head)
+        sh("git reset -q --hard; git clean -fdq; git checkout -q --detach %s" % head)
         rc, out = sh("git apply %s/patch.diff" % seed)
         how = "git apply (current head)"
         if rc != 0:
@@ -58,4 +58,4 @@ for name in sys.argv[2:]:
     ver.pop("pinned_suite_output_nonok_lines", None)
     json.dump(ver, open(vp, "w"), indent=1)
     print(name, "pass" if rec["pass"] else "FAIL", rec.get("packages_ok"), "cached", rec.get("cached"), rec.get("non_ok_lines", [])[:3], flush=True)
-sh("git checkout -q -- . ; git clean -fdq")
+sh("git reset -q --hard; git clean -fdq")
